@@ -60,7 +60,7 @@ func Predict(op *Op) *Expected {
 		t.Logs = hx.VisibleLogs(s.Logs, lvl)
 		ex.InitErr = &t
 		return ex
-	case "nilresult":
+	case "nilresult", "wrongstate":
 		if op.Kind == "stream" {
 			t := ExpTurn{Kind: "error", ErrType: "RuntimeError", ErrAny: true}
 			ex.InitErr = &t
